@@ -351,7 +351,7 @@ func cmdRun(args []string) int {
 	var replayPaths []string
 	for _, k := range unknownOrder {
 		v := unknownClasses[k]
-		r := core.Replay{Property: id, API: v.API, Clause: v.Clause, Shape: v.Shape, Case: v.Case, Choices: v.Choices, Detail: v.Detail}
+		r := core.Replay{Property: id, API: v.API, Clause: v.Clause, Shape: v.Shape, Case: v.Case, Choices: v.Choices, Detail: v.Detail, GoTest: v.GoTest}
 		r.Note = "re-run with: ./mc/mxjcheck replay <this file>"
 		name := fmt.Sprintf("%s-%016x.json", id, core.Hash64(k+string(v.Case)))
 		rp := filepath.Join(verifDir, "replays", name)
